@@ -272,7 +272,7 @@ PROPS = {
     "C14": {
         "level": "other",
         "rules": [("IC", 13, hasnot("repr::cnf::Cnf::from_dimacs")), ("VO", 15, vo_sel("var_order", "vtree", "dtree", "force_order")), ("DTR", 5, None), ("VX", 11, None),
-                  ("LT", 2, has("VarOrder", "VTreeManager")), ("VT", 4, None), ("BT", 9, None),
+                  ("LT", 2, has("VarOrder", "VTreeManager")), ("VT", 5, None), ("BT", 9, None),
                   ("NC", 1, has("DTree::from_cnf")), ("MF", 4, None), ("EM", 4, has("DTree::from_cnf", "force_order", "average_span", "interaction_graph")), ("FD", 2, None)],
         "explanation": "Dimension analysis (Index / Count / OneBased): every function called num_vars returns a count, every "
                        "num_vars field is initialised with a count, label-indexed table sizes are counts (IC). Not decided: "
